@@ -450,27 +450,50 @@ def locs(rep, mod):
     for v in js[0].values:
         parts.append(v.value if isinstance(v, ast.Constant) else 'PREFIX')
     rx = ''.join(parts)
-    ok = False
+    # decided by bounded exhaustive comparison: with the prefix 'ab', re.match(<the regex>, name) must split every short name the way the
+    # lookup is documented - the name starts with the prefix, group 2 is the longest trailing run of [digit _ [ ]] behind the prefix,
+    # group 1 is everything before it; no match otherwise
+    import itertools
+    PFX = 'ab'
     try:
-        p = re._parser.parse(rx)
-        s = str(p)
-        # group 1: PREFIX + lazy any; group 2: repeat of IN [digit _ [ ]] ; at end
-        items = list(p)
-        g1, g2 = items[0], items[1]
-        ok = len(items) == 2 and g1[0] == re._parser.SUBPATTERN and g2[0] == re._parser.SUBPATTERN
-        inner2 = list(g2[1][3])
-        rep_node = inner2[0]
-        at_end = inner2[-1]
-        ok = ok and at_end[0] == re._parser.AT and rep_node[0] in (re._parser.MAX_REPEAT,) and rep_node[1][0] == 0 and rep_node[1][1] == re._parser.MAXREPEAT
-        cls = str(rep_node[1][2])
-        ok = ok and 'CATEGORY_DIGIT' in cls and all(str(ord(c)) in cls for c in '_[]')
-        inner1 = list(g1[1][3])
-        ok = ok and inner1[-1][0] == re._parser.MIN_REPEAT and ''.join(chr(x[1]) for x in inner1[:-1] if x[0] == re._parser.LITERAL) == 'PREFIX'
-    except Exception as e:  # noqa: BLE001
-        raise ModelError(f'Circuit._locs: regex {rx!r} not analysable: {e}')
-    rep.ob('C17.locs', f'regex {rx}', ok, sample={'rule': 'C17.locs', 'regex': rx})
+        cre = re.compile(rx.replace('PREFIX', PFX))
+    except re.error as e:
+        raise ModelError(f'Circuit._locs: regex {rx!r} does not compile: {e}')
+
+    def spec(name):
+        if not name.startswith(PFX):
+            return None
+        rest = name[len(PFX):]
+        k = 0
+        while k < len(rest) and rest[len(rest) - 1 - k] in '0123456789_[]':
+            k += 1
+        return (PFX + rest[:len(rest) - k], rest[len(rest) - k:])
+    bad = None
+    ncmp = 0
+    for alpha, nmax in (('abx_[]1/.', 5), ('ab_1/', 7)):
+        for n in range(0, nmax + 1):
+            for tup in itertools.product(alpha, repeat=n):
+                name = ''.join(tup)
+                ncmp += 1
+                mm = cre.match(name)
+                got = None
+                if mm:
+                    try:
+                        got = (mm[1], mm[2])
+                    except IndexError:
+                        got = 'groups'
+                if got != spec(name):
+                    bad = (name, got, spec(name))
+                    break
+            if bad:
+                break
+        if bad:
+            break
+    ok = bad is None
+    rep.ob('C17.locs', f'regex {rx} splits every short name as documented ({ncmp} names)', ok, evals=ncmp, sample={'rule': 'C17.locs', 'regex': rx})
     if not ok:
-        rep.violate('C17.locs', mod, f, js[0], f'_locs regex {rx!r}: must be (prefix + lazy rest)(run of digits, _, [, ] anchored at the end)', node=js[0])
+        rep.violate('C17.locs', mod, f, js[0], f'_locs regex {rx!r}: for the prefix {PFX!r} the name {bad[0]!r} is split as {bad[1]} but the lookup is documented as {bad[2]} '
+                    f'(name starts with the prefix; the index suffix is the trailing run of digits, _, [, ])', witness={'name': bad[0], 'got': str(bad[1]), 'want': str(bad[2])}, node=js[0])
     m = [c for c in find_all(f, ast.Call) if call_name(c) == 're.match']
     ok = len(m) == 1 and len(m[0].args) == 2 and norm(m[0].args[1]).endswith('.name')
     rep.ob('C17.locs', 're.match on node name (anchored at start)', ok)
@@ -505,6 +528,13 @@ def locs(rep, mod):
         rep.ob('C17.locs', q, ok)
         if not ok:
             rep.violate('C17.locs', mod, g, r[0] if r else q, f'{q} must return self._locs(prefix, {arg})', node=g)
+
+
+def depends(rep, repo):
+    """Pin lists hold None exactly where Line.remove leaves it and fork outputs stay gap-free and correctly numbered (C09.remove): the
+    traversals rely on both."""
+    from checks import c09
+    c09.removal(rep, repo.mod('circuit'))
 
 
 def order_rules(rep, repo):
